@@ -44,7 +44,7 @@ func Run(r *report.Run) int {
 	for i, c := range cases {
 		planned++
 		s := c.Scenario
-		fp := fmt.Sprintf("%s:%s#%d:%s:%d:%d", s.Shape, s.Label, s.Ord, s.Act, s.TornN, s.TornRel)
+		fp := fmt.Sprintf("%s:aged=%v:%s#%d:%s:%d:%d", s.Shape, s.Aged, s.Label, s.Ord, s.Act, s.TornN, s.TornRel)
 		if c.VictimExit != 77 {
 			r.Inconclusive("crash-site-not-reached")
 			r.Eval(fp, false)
